@@ -237,6 +237,11 @@ fn step(resolved: bool, regs: &[Option<Elem>], op: &str) -> (String, Option<Elem
                 "itn" | "its" => {
                     let script: Vec<usize> = parts.get(2).map(|s| s.split('.').filter(|x| !x.is_empty()).map(|x| x.parse().unwrap_or(0)).collect()).unwrap_or_default();
                     let mut out = Vec::new();
+                    // how the partly consumed iterator is finished: "" nothing more, l = last(), c = count(),
+                    // z = len() and size_hint(), f = fold over what remains
+                    let term = parts.get(3).copied().unwrap_or("");
+                    let hint = |len: usize, h: (usize, Option<usize>)| format!("len={},hint={}-{}", len, h.0, h.1.map(|x| x.to_string()).unwrap_or_else(|| "inf".into()));
+                    let tail;
                     if name == "itn" {
                         let mut it = n.children();
                         for k in script {
@@ -244,6 +249,13 @@ fn step(resolved: bool, regs: &[Option<Elem>], op: &str) -> (String, Option<Elem
                                 out.push(show_ref(c.into()));
                             }
                         }
+                        tail = match term {
+                            "l" => format!(" last={}", it.last().map(|c| show_ref(c.into())).unwrap_or_else(|| "-".into())),
+                            "c" => format!(" count={}", it.count()),
+                            "z" => format!(" {}", hint(it.len(), it.size_hint())),
+                            "f" => format!(" rest=[{}]", it.fold(Vec::new(), |mut v, c| { v.push(show_ref(c.into())); v }).join(",")),
+                            _ => String::new(),
+                        };
                     } else {
                         let mut it = n.children_with_tokens();
                         for k in script {
@@ -251,8 +263,16 @@ fn step(resolved: bool, regs: &[Option<Elem>], op: &str) -> (String, Option<Elem
                                 out.push(show_ref(c));
                             }
                         }
+                        tail = match term {
+                            "l" => format!(" last={}", it.last().map(show_ref).unwrap_or_else(|| "-".into())),
+                            "c" => format!(" count={}", it.count()),
+                            "z" => format!(" {}", hint(it.len(), it.size_hint())),
+                            "f" => format!(" rest=[{}]", it.fold(Vec::new(), |mut v, c| { v.push(show_ref(c)); v }).join(",")),
+                            _ => String::new(),
+                        };
                     }
-                    list(out)
+                    let (s, r) = list(out);
+                    (format!("{s}{tail}"), r)
                 }
                 _ => ("-".into(), None),
             }
@@ -317,5 +337,26 @@ pub fn run_case(args: &[&str]) -> String {
         format!(" texts {}", v.join("|"))
     })
     .unwrap_or_else(|c| format!(" texts TEXT-PANIC:{c}"));
-    format!("{} ;; {} ;; {}{}", outs.join(" ; "), held.join(" "), dump, texts)
+    // identity (C05): which registers hold EQUAL handles (== of SyntaxElement), and whether equal handles hash equally
+    let hash_of = |e: &Elem| {
+        use std::hash::{Hash, Hasher};
+        let mut h = std::collections::hash_map::DefaultHasher::new();
+        e.hash(&mut h);
+        h.finish()
+    };
+    let mut classes: Vec<String> = Vec::new();
+    let mut reps: Vec<(usize, &Elem)> = Vec::new();
+    for r in &regs {
+        match r {
+            None => classes.push("-".into()),
+            Some(e) => match reps.iter().find(|(_, f)| *f == e) {
+                Some((k, f)) => classes.push(if hash_of(f) == hash_of(e) { k.to_string() } else { format!("{k}h!") }),
+                None => {
+                    reps.push((reps.len(), e));
+                    classes.push((reps.len() - 1).to_string());
+                }
+            },
+        }
+    }
+    format!("{} ;; {} ~ {} ;; {}{}", outs.join(" ; "), held.join(" "), classes.join(","), dump, texts)
 }
